@@ -782,8 +782,9 @@ def one_bit_selects(net):
     if net.op != 's':
         return True
 
-    catlist = [net.args[0][i] for i in net.op_param]
     dest = net.dests[0]
+    # only the bits that fit the destination (a wider result would be truncated by a new multi-bit select)
+    catlist = [net.args[0][i] for i in net.op_param[:len(dest)]]
     dest <<= concat_list(catlist)
 
 
